@@ -536,10 +536,12 @@ async def _kill(loop, case, base, k, out: Outcome):
     for n, t_m in enumerate(times):
         await asyncio.sleep(max(0.0, t_m - loop.time()))
         cm = env.connection(f"m{n}", None, buckets=False)
+        # (judged by the instant the maintenance run itself started - it reads the clock once, first thing - not by the instant of
+        #  the probe 10 ms later, and not by the planned instant: the dying worker's scenario may have taken the clock past it)
+        now = loop.time()
         await cm.connect()
         await asyncio.sleep(0.01)
         prn = env.probe()
-        now = loop.time()
         for i, (t_take, prm) in before.items():
             deadline = t_take + prm.execution_timeout.total_seconds()
             places = prn.get(i, [])
